@@ -22,6 +22,17 @@ typedef a_buf cont;
 }
 
 static const long SMAX = -1; // stands for (a_size)-1, the "end" sentinel
+// further out-of-range indices whose product with the element size wraps around modulo 2^64:
+// -2: 2^63, -3: SIZE_MAX / siz + 1 (the product wraps to less than siz), -4: SIZE_MAX / siz + 2 (wraps into the second element)
+static const long IHALF = -2, IWRAP0 = -3, IWRAP1 = -4;
+static inline a_size idx_val(long v, size_t siz)
+{
+    if (v >= 0) { return (a_size)v; }
+    if (v == SMAX) { return (a_size)-1; }
+    if (v == IHALF) { return (a_size)1 << (sizeof(a_size) * 8 - 1); }
+    if (siz <= 1) { return (a_size)-1 - (a_size)(SMAX - v); }
+    return (a_size)-1 / siz + (a_size)(v == IWRAP0 ? 1 : 2);
+}
 
 enum
 {
@@ -240,7 +251,7 @@ struct Harness
         s += k.substr(3);
         return s + "]}";
     }
-    static std::string idx_str(long v) { return v == SMAX ? "SIZE_MAX" : std::to_string(v); }
+    static std::string idx_str(long v) { return v == SMAX ? "SIZE_MAX" : v == IHALF ? "2^63" : v == IWRAP0 ? "SIZE_MAX/siz+1" : v == IWRAP1 ? "SIZE_MAX/siz+2" : std::to_string(v); }
     std::string op_str(const xs::Op &o) const
     {
         std::string s = op_names[o.code];
@@ -263,6 +274,7 @@ struct Harness
     {
         auto cls = [&](long v) -> std::string {
             if (v == SMAX) { return "SIZE_MAX"; }
+            if (v < 0) { return "wrapping"; }
             if ((size_t)v < num) { return "in-range"; }
             if ((size_t)v == num) { return "at-end"; }
             return "beyond";
@@ -270,7 +282,7 @@ struct Harness
         switch (o.code)
         {
         case OP_INSERT: case OP_REMOVE: case OP_STORE: return "idx:" + cls(o.a);
-        case OP_ERASE: return "idx:" + cls(o.a) + ",cnt:" + (o.b == SMAX ? "SIZE_MAX" : (size_t)(o.a == SMAX ? 0 : o.a) + (size_t)o.b <= num ? "fits" : "past-end");
+        case OP_ERASE: return "idx:" + cls(o.a) + ",cnt:" + (o.b == SMAX ? "SIZE_MAX" : o.b < 0 ? "wrapping" : (size_t)(o.a < 0 ? 0 : o.a) + (size_t)o.b <= num ? "fits" : "past-end");
         case OP_SETM: return (size_t)o.a < num ? "below-count" : "at-or-above-count";
         case OP_NEW: return "siz=" + std::to_string(o.a);
         }
@@ -289,7 +301,8 @@ struct Harness
         size_t siz = c->siz_, num = c->num_;
         g_siz = siz;
         Model &m = L.m;
-        auto A = [](long v) -> a_size { return v == SMAX ? (a_size)-1 : (a_size)v; };
+        size_t isiz_ = c->siz_;
+        auto A = [isiz_](long v) -> a_size { return idx_val(v, isiz_); };
         bool full = (c->num_ == c->mem_);
 #if defined(SEQ_BUF)
         bool fits1 = !full;
@@ -671,21 +684,24 @@ struct Harness
             {
                 for (size_t i = 0; i <= num + 1; ++i) { add(OP_INSERT, (long)i, k); }
                 add(OP_INSERT, SMAX, k);
+                if (k == 0) { add(OP_INSERT, IHALF, k); add(OP_INSERT, IWRAP0, k); add(OP_INSERT, IWRAP1, k); }
             }
         }
         add(OP_PULL_BACK); add(OP_PULL_FORE);
         for (size_t i = 0; i <= num; ++i) { add(OP_REMOVE, (long)i); }
-        add(OP_REMOVE, SMAX);
+        add(OP_REMOVE, SMAX); add(OP_REMOVE, IHALF); add(OP_REMOVE, IWRAP0); add(OP_REMOVE, IWRAP1);
         long sidx[4] = {0, (long)(num / 2), (long)num, SMAX};
         for (int b = 0; b <= 2; ++b)
         {
             if (num + b > (size_t)N + 1) { continue; }
             for (int i = 0; i < 4; ++i) { for (int cp = 0; cp < 2; ++cp) { add(OP_STORE, sidx[i], b, cp); } }
+            if (b) { add(OP_STORE, IHALF, b, 0); add(OP_STORE, IWRAP0, b, 0); add(OP_STORE, IWRAP1, b, 1); }
         }
         {
             std::vector<long> idxs, cnts = {0, 1, 2, (long)num, SMAX};
             for (size_t i = 0; i <= num + 1; ++i) { idxs.push_back((long)i); }
-            idxs.push_back(SMAX);
+            idxs.push_back(SMAX); idxs.push_back(IHALF); idxs.push_back(IWRAP0); idxs.push_back(IWRAP1);
+            cnts.push_back(IWRAP0); cnts.push_back(IHALF);
             for (long i : idxs) { for (long cn : cnts) { for (int d = 0; d < 2; ++d) { add(OP_ERASE, i, cn, d); } } }
         }
         for (size_t k = 0; k <= num; ++k) { add(OP_SETN, (long)k, 1); }
@@ -812,7 +828,8 @@ struct Harness
     bool call_expect_failure(Live &L, const xs::Op &o, Ck &ck)
     {
         cont *c = L.c;
-        auto A = [](long v) -> a_size { return v == SMAX ? (a_size)-1 : (a_size)v; };
+        size_t isiz_ = c->siz_;
+        auto A = [isiz_](long v) -> a_size { return idx_val(v, isiz_); };
         unsigned char blk[32];
         memset(blk, 0x11, sizeof blk);
         g_siz = c->siz_;
